@@ -559,8 +559,18 @@ func (ex *Exec) runDefers(st *State) {
 		if isIgnorableDefer(name) {
 			continue
 		}
-		// unsupported defer: havoc everything (sound), note it
-		ex.g.note("deferred call " + name + " in " + shortKey(funcKey(ex.fn)) + " abstracted: heap havocked at return")
+		// a call deferred unconditionally in the entry block runs at every return: treat it as an ordinary
+		// call here (contract applied if the callee / closure has one; otherwise the usual rules)
+		if d.Block() == ex.fn.Blocks[0] {
+			var rt types.Type = d.Common().Signature().Results()
+			if d.Common().Signature().Results().Len() == 1 {
+				rt = d.Common().Signature().Results().At(0).Type()
+			}
+			ex.callCommon(st, d, d.Common(), rt)
+			continue
+		}
+		// conditional defer: havoc everything (sound), note it
+		ex.g.note("deferred call " + name + " in " + shortKey(funcKey(ex.fn)) + " (registered conditionally) abstracted: heap havocked at return")
 		ex.havocEverything(st)
 	}
 }
